@@ -28,6 +28,7 @@ type Spec struct {
 	KnownOpen []string          `json:"known_open"`
 	Workers   int               `json:"workers"`
 	Jobs      []Job             `json:"jobs"`
+	BMC       []BMCJob          `json:"bmc"`
 }
 
 type Job struct {
@@ -278,7 +279,33 @@ func main() {
 	close(ch)
 	wg.Wait()
 
-	out := map[string]any{"load_s": tLoad.Seconds(), "wall_s": time.Since(t0).Seconds(), "results": results, "intmode": IntMode}
+	bmcResults := make([]BMCResult, len(spec.BMC))
+	if len(spec.BMC) > 0 {
+		var bwg sync.WaitGroup
+		sem := make(chan struct{}, spec.Workers)
+		for i := range spec.BMC {
+			bwg.Add(1)
+			go func(i int) {
+				defer bwg.Done()
+				sem <- struct{}{}
+				defer func() { <-sem }()
+				tmo := spec.TimeoutMs
+				if tmo == 0 {
+					tmo = 600000
+				}
+				if spec.BMC[i].Fused {
+					bmcResults[i] = runBMCFused(l, spec.BMC[i], tmo)
+				} else {
+					bmcResults[i] = runBMC(l, spec.BMC[i], tmo)
+				}
+				if os.Getenv("VERIF_PROGRESS") != "" {
+					fmt.Fprintf(os.Stderr, "bmc %s: %s %v\n", spec.BMC[i].Name, bmcResults[i].Status, bmcResults[i].Queries)
+				}
+			}(i)
+		}
+		bwg.Wait()
+	}
+	out := map[string]any{"load_s": tLoad.Seconds(), "wall_s": time.Since(t0).Seconds(), "results": results, "intmode": IntMode, "bmc_results": bmcResults}
 	if *hashes {
 		seen := map[string]bool{}
 		for _, r := range results {
